@@ -30,7 +30,7 @@ use crate::backup::{get_backup_path, needs_backup};
 use crate::config::{Config, Reflink};
 use crate::errors::{Result, XcpError};
 use crate::feedback::{StatusUpdate, StatusUpdater};
-use crate::paths::{parse_ignore, ignore_filter};
+use crate::paths::{self, parse_ignore, ignore_filter};
 
 /// Where a [CopyHandle] reports errors that occur when it is dropped.
 struct DropReporter(Arc<dyn StatusUpdater>);
@@ -192,7 +192,7 @@ pub fn tree_walker(
             .next_back()
             .ok_or(XcpError::InvalidSource("Failed to find source directory name."))?;
 
-        let target_base = if dest.exists() && dest.is_dir() && !config.no_target_directory {
+        let target_base = if paths::is_dir(dest)? && !config.no_target_directory {
             dest.join(sourcedir)
         } else {
             dest.to_path_buf()
@@ -222,7 +222,7 @@ pub fn tree_walker(
                 target_base.clone()
             };
 
-            if config.no_clobber && target.exists() {
+            if config.no_clobber && paths::exists(&target)? {
                 let msg = "Destination file exists and --no-clobber is set.";
                 stats.send(StatusUpdate::Error(
                     XcpError::DestinationExists(msg, target)))?;
